@@ -291,7 +291,10 @@ fn parse_number(input: &str) -> SResult<'_, Value> {
                 Ok(Value::Integer(v as i64))
             }
         } else {
-            Ok(Value::Float(NotNan::new(v).expect("not a float")))
+            // `double` also accepts "nan", which is not a number to report.
+            NotNan::new(v).map(Value::Float).map_err(|_| {
+                nom::Err::Error((input, nom::error::ErrorKind::Float))
+            })
         }
     })
     .parse(input)
